@@ -302,6 +302,12 @@ impl<'tcx> Cx<'tcx> {
                     }
                 }
             }
+            // a named constant table (array / tuple of readable leaves)
+            if matches!(ty.kind(), ty::Array(..) | ty::Tuple(..)) && matches!(c.const_, Const::Unevaluated(..)) {
+                if let Some(t) = self.const_tree(env, v, ty, 0) {
+                    o.push(("tree", t));
+                }
+            }
             // `&CONST` of a crate-local ADT type: the tree of the pointee
             if let ty::Ref(_, inner, _) = ty.kind() {
                 if let ty::Adt(ad, _) = inner.kind() {
@@ -425,6 +431,18 @@ impl<'tcx> Cx<'tcx> {
                     }
                 }
                 None
+            }
+            ty::Array(..) | ty::Tuple(..) => {
+                let d = tcx.try_destructure_mir_constant_for_user_output(v, ty)?;
+                if d.fields.len() > 64 {
+                    return None;
+                }
+                let mut fields = vec![];
+                for (fv, fty) in d.fields.iter() {
+                    fields.push(self.const_tree(env, *fv, *fty, depth + 1)?);
+                }
+                let key = if matches!(ty.kind(), ty::Array(..)) { "array" } else { "tuple" };
+                Some(J::obj(vec![(key, J::Arr(fields))]))
             }
             ty::Adt(ad, _) if ad.is_enum() || ad.is_struct() => {
                 let d = tcx.try_destructure_mir_constant_for_user_output(v, ty)?;
